@@ -30,6 +30,8 @@ struct Case {
     /// Some(code): the configuration is written the way users write it (JSON with the alphabetic
     /// ISO 4217 code); `currency` is then the numeric code ISO 4217 assigns to it
     currency_code: Option<&'static str>,
+    /// the end-of-day that follows the commit reports the day's totals in status informations
+    eod_totals: bool,
 }
 
 fn run_case(c: &Case, acc: &mut Acc) -> Vec<String> {
@@ -61,6 +63,14 @@ fn run_case(c: &Case, acc: &mut Acc) -> Vec<String> {
                 }
                 Some(vec![r.ack(), r.intermediate(0x17), r.status(&f, "status"), r.completion()])
             }
+            (Xch::P3, "EndOfDay") if cc.eod_totals => Some(vec![
+                r.ack(),
+                r.intermediate(0x17),
+                r.status(&[("result_code", Val::Int(0)), ("amount", Val::Int(95_800)), ("trace_number", Val::Int(1)), ("date", Val::Int(101)), ("time", Val::Int(1)), ("terminal_id", Val::Int(1))], "end-of-day-totals"),
+                r.print_line("TOTAL 958,00"),
+                r.status(&[("result_code", Val::Int(0)), ("amount", Val::Int(0))], "end-of-day-totals-2"),
+                r.completion(),
+            ]),
             _ => None,
         }
     });
@@ -159,7 +169,7 @@ fn run_case(c: &Case, acc: &mut Acc) -> Vec<String> {
 pub fn run(run: &RunInfo) -> Summary {
     let thorough = run.thorough();
     let mut cases: Vec<Case> = vec![];
-    let base = Case { pre: 2500, fin: 0, currency: 978, token: "384HH2".into(), receipt: 231, amount: Some(1295), trace: Some(975), date: Some(405), time: Some(225558), terminal_id: Some(52523535), lost_first_receipt: None, currency_code: None };
+    let base = Case { pre: 2500, fin: 0, currency: 978, token: "384HH2".into(), receipt: 231, amount: Some(1295), trace: Some(975), date: Some(405), time: Some(225558), terminal_id: Some(52523535), lost_first_receipt: None, currency_code: None, eod_totals: false };
     // all small pairs and the boundary grid
     let mut pres: Vec<u64> = (0..=24).collect();
     pres.extend([2500, 1_000_000, 999_999_999_999]);
@@ -182,6 +192,12 @@ pub fn run(run: &RunInfo) -> Summary {
     for (code, num) in [("EUR", 978u64), ("GBP", 826), ("SEK", 752), ("eur", 978), ("Gbp", 826), ("sek", 752), ("CHF", 756), ("USD", 840), ("NOK", 578), ("DKK", 208), ("PLN", 985), ("CZK", 203)] {
         for (pre, fin) in [(2500u64, 1295u64), (0, 0)] {
             cases.push(Case { pre, fin, currency: num, currency_code: Some(code), ..base.clone() });
+        }
+    }
+    // the end-of-day that follows the commit reports totals of its own: the summary is the commit's
+    for (pre, fin) in [(2500u64, 1295u64), (2500, 0), (2500, 2500), (0, 0)] {
+        for (a, tr) in [(Some(1295u64), Some(975u64)), (None, None), (Some(0), Some(0))] {
+            cases.push(Case { pre, fin, amount: a, trace: tr, eod_totals: true, ..base.clone() });
         }
     }
     // tokens and receipt numbers
@@ -220,7 +236,7 @@ pub fn run(run: &RunInfo) -> Summary {
     }
     let mut acc = par_for(cases.len(), |ix, acc| {
         let c = &cases[ix];
-        let key = format!("c08/pre={}/final={}/cur={}{}/token={:?}/receipt={}/lost-first={:?}/status={:?},{:?},{:?},{:?},{:?}", c.pre, c.fin, c.currency, c.currency_code.map(|x| format!("(configured as {x:?})")).unwrap_or_default(), c.token, c.receipt, c.lost_first_receipt, c.amount, c.trace, c.date, c.time, c.terminal_id);
+        let key = format!("c08/pre={}/final={}/cur={}{}{}/token={:?}/receipt={}/lost-first={:?}/status={:?},{:?},{:?},{:?},{:?}", c.pre, c.fin, c.currency, c.currency_code.map(|x| format!("(configured as {x:?})")).unwrap_or_default(), if c.eod_totals { "/end-of-day-reports-totals" } else { "" }, c.token, c.receipt, c.lost_first_receipt, c.amount, c.trace, c.date, c.time, c.terminal_id);
         if skip_for_replay(run, &key) {
             return;
         }
@@ -255,7 +271,7 @@ pub fn run(run: &RunInfo) -> Summary {
         transitions: acc.get("transitions"),
         traces_validated: execs,
         distinct_nontrivial: acc.set_len("cases"),
-        rule: "real Feig client (begin; commit) against the simulated terminal for: all pairs pre-authorisation 0..=24 x final 0..=26 and the boundary grid pre in {2500, 10^6, 10^12-1} x final in {pre-1, pre, pre+1, 2 pre, 2^32, 2^63-1, 2^63, 2^63+1, 2^63+pre, u64::MAX-10^6, u64::MAX-1, u64::MAX} x currencies {752, 826, 978}; 13 tokens (incl. empty, upper CP437 half, blanks / tabs / no-break space at either end, mixed case, leading zeros) x receipt numbers {1, 231, 9999}; configurations parsed from JSON with the alphabetic ISO 4217 code in any letter case (12 spellings; codes this version does not accept are skipped) against a pinned excerpt of the standard; reservations repeated after a lost connection with the first attempt's receipt number above, below and equal to the final one; the product of the alphabets of the five reported status fields incl. absent and leading-zero values. Requests are decoded by the reference codec and compared with the reference model; the summary with the reported values".into(),
+        rule: "real Feig client (begin; commit) against the simulated terminal for: all pairs pre-authorisation 0..=24 x final 0..=26 and the boundary grid pre in {2500, 10^6, 10^12-1} x final in {pre-1, pre, pre+1, 2 pre, 2^32, 2^63-1, 2^63, 2^63+1, 2^63+pre, u64::MAX-10^6, u64::MAX-1, u64::MAX} x currencies {752, 826, 978}; 13 tokens (incl. empty, upper CP437 half, blanks / tabs / no-break space at either end, mixed case, leading zeros) x receipt numbers {1, 231, 9999}; configurations parsed from JSON with the alphabetic ISO 4217 code in any letter case (12 spellings; codes this version does not accept are skipped) against a pinned excerpt of the standard; commits whose end-of-day reports the day's totals in status informations of its own; reservations repeated after a lost connection with the first attempt's receipt number above, below and equal to the final one; the product of the alphabets of the five reported status fields incl. absent and leading-zero values. Requests are decoded by the reference codec and compared with the reference model; the summary with the reported values".into(),
         exhaustive: true,
         required_witnesses: vec!["final amount above the pre-authorisation (release must be zero)".into(), "final amount at and above 2^63".into(), "a configuration written with the alphabetic currency code was used".into()],
         assumptions: vec!["pre-authorisation amounts >= 10^12 do not fit the 12-digit field and are outside the domain".into(), "the textual padding of the terminal id is not fixed by the statement (compared numerically)".into()],
